@@ -48,6 +48,15 @@ fn arithmetic<T: Elem>(case: &mut Case) -> Result<(), String> {
         t /= snz;
         veq(&t, &z1(&|x| x / snz), "a /= s")?;
     }
+    if !T::EXACT {
+        // exactly representable quotients: (a_i * s) / s must give back a_i exactly
+        let prod: Vec<T> = a.iter().map(|x| *x * snz).collect();
+        let vp = Vector::create(prod.clone());
+        veq(&(vp.clone() / snz), &a, "(a * s) / s")?;
+        let mut t = vp.clone();
+        t /= snz;
+        veq(&t, &a, "(a * s) /= s")?;
+    }
     let mut t = va.clone();
     t += vb.clone();
     veq(&t, &z2(&|x, y| x + y), "a += b")?;
